@@ -285,6 +285,11 @@ func structOf(fields []reflect.StructField) reflect.Type {
 	if t, ok := structCache[k]; ok {
 		return t
 	}
+	defer func() {
+		if p := recover(); p != nil {
+			panic(fmt.Sprintf("%v; fields: %s", p, k))
+		}
+	}()
 	t := reflect.StructOf(fields)
 	structCache[k] = t
 	return t
@@ -297,7 +302,7 @@ func layoutIndex(lay, j int) int {
 		return j
 	case 3:
 		return j + 2
-	case 4:
+	case 4, 7:
 		if j == 0 {
 			return 0
 		}
@@ -319,7 +324,7 @@ func buildEnc(items []Enc, embed reflect.Type, embedName string, leafType func(i
 			if embedName != "In" && (lay == 2 || lay == 3) {
 				lay = 0
 			}
-			if lay == 4 && len(it.Obj) == 0 {
+			if (lay == 4 || lay == 7) && len(it.Obj) == 0 {
 				lay = 0
 			}
 			if lay == 5 || lay == 6 {
@@ -352,6 +357,13 @@ func buildEnc(items []Enc, embed reflect.Type, embedName string, leafType func(i
 				}
 				children = append(children, sf)
 			}
+			if lay == 7 {
+				// the first dependency is embedded (anonymous field) ahead of the In/Out embed, when it is a
+				// plain struct type without methods (reflect.StructOf cannot embed types with methods)
+				if c0 := children[0]; !it.Obj[0].IsObj && c0.Type.Kind() == reflect.Struct && c0.Type.Name() != "" && c0.Type.NumMethod() == 0 && reflect.PointerTo(c0.Type).NumMethod() == 0 {
+					children[0].Name, children[0].Anonymous = c0.Type.Name(), true
+				}
+			}
 			var fields []reflect.StructField
 			switch lay {
 			case 1:
@@ -360,7 +372,7 @@ func buildEnc(items []Enc, embed reflect.Type, embedName string, leafType func(i
 				fields = append(append(append(fields, emb), children...), unexportedField)
 			case 3:
 				fields = append(append(append(fields, unexportedField), emb), children...)
-			case 4:
+			case 4, 7:
 				fields = append(append(append(fields, children[0]), emb), children[1:]...)
 			case 5:
 				fields = append(fields, children...)
